@@ -33,6 +33,7 @@ type FuncContract struct {
 	Mode       string
 	Assigns    []string
 	HasAssigns bool
+	ReadOnly   []string // readonly p: the function never writes into the backing storage of slice parameter p
 	CallReq    map[string][]Clause // callee text -> required condition at each such call
 	Asserts    []Clause
 	Ghost      []string // ghost var declarations "name Type"
@@ -325,6 +326,10 @@ func (pc *PkgContracts) parseFile(path string) error {
 						}
 						cur.FreshField[idx] = field
 					}
+				}
+			case "readonly":
+				for _, k := range strings.FieldsFunc(rest, func(r rune) bool { return r == ',' || r == ' ' }) {
+					cur.ReadOnly = append(cur.ReadOnly, k)
 				}
 			case "atomic":
 				cur.Atomic = true
